@@ -16,4 +16,8 @@ struct FileView { struct DataAccess *media_; unsigned long initial_skip_; sector
 /* img_sdf.h: class FilePresentedBlockwise { FileAccess& f_; } */
 struct FileAccess { int id; };
 struct FilePresentedBlockwise { struct FileAccess *f_; };
+
+/* what CommandFree::invoke reads from the mounted Catalog object (dfs_catalog.h accessors) */
+struct CatalogView { sector_count_type catalog_sectors; int max_file_count; sector_count_type total_sectors; };
+struct free_result { int files_free, files_used, sectors_free, sectors_used; };
 #endif
